@@ -261,8 +261,7 @@ Qed.
 
 (* (0''') over every table Licensing() accepted: the table conditions but one are theorems.  LicenseSymbol() applied to a key it
    returned gives that key again (mk_key_idem), and a table validate_symbols let through has no two names of different licenses
-   with the same lower-cased words once no name holds an operator word or a parenthesis (accepted_names_unambiguous, through the
-   order-free rule of C14).  What remains is the one condition Licensing() does not check: no operator word inside a name. *)
+   with the same lower-cased words (accepted_names_unambiguous, through the order-free rule of C14).  What remains is the one condition Licensing() does not check: no operator word inside a name. *)
 Theorem C05_round_trip_over_accepted_tables : forall O, is_space O 32%N = true ->
   (forall c, In c [65; 78; 68; 79; 82; 87; 73; 84; 72; 40; 41]%N -> is_space O c = false) ->
   (lower O S_AND = s_and /\ lower O S_OR = s_or /\ lower O S_WITH = s_with /\ lower O s_lpar = s_lpar /\ lower O s_rpar = s_rpar) ->
